@@ -94,7 +94,7 @@ _rect_cov(4, 5, "vecm")
 
 
 def _rect_cov_history(mutation):
-    @task("C10", "Rect.history[is_covered, m=2, K=2, slack=zero: construct, use, %s, use]" % mutation)
+    @task("C10", "Rect.history[is_covered, m=2, K=2, slack=zero; construct, use, %s, use]" % mutation)
     def _t(t):
         """The verdict refers to the region's CURRENT bounds along a history: the first region is built by the real constructor,
         used once (so that anything the predicate or the region remembers is filled in), changed by the real `%s`, and used
@@ -245,7 +245,7 @@ def ell_member_now(center, sigma, alpha, z, m):
     return z3.And(a >= 0, ss <= a * a)
 
 
-@task("C10", "Ell.history[is_covered, m=2, K=2, slack=zero: construct, use, update, use]")
+@task("C10", "Ell.history[is_covered, m=2, K=2, slack=zero; construct, use, update, use]")
 def _ell_cov_history(t):
     """As for rectangles: both ellipsoids are built by the real constructor, the predicate is used once, the first region is
     updated by the real `update`, and the second verdict must be the specification's verdict for the ellipsoid now displayed."""
@@ -439,7 +439,7 @@ for (_m, _K) in [(2, 2), (2, 3), (3, 3)]:
         _ell_dom(_m, _K, _sk)
 
 
-@task("C09", "Ell.history[is_dominated, m=2, K=2, slack=zero: construct, use, update, use]")
+@task("C09", "Ell.history[is_dominated, m=2, K=2, slack=zero; construct, use, update, use]")
 def _ell_dom_history(t):
     """Both ellipsoids built by the real constructor, the predicate used once, the first region updated by the real `update`,
     the predicate used again: every program of the second use ranges over the ellipsoids NOW displayed, and the second result
